@@ -122,7 +122,9 @@ def run(ctx):
         'max_edits': [0, -1, 1.0, 1.5, '1', None, True],
         'max_returns': [0, -2, 1.5, '3'],
         'n_cpu': [0, -1, 1.0, '2', None],
-        'output_type': ['dense', 'matrix', None, 3],
+        # unknown names, near misses of the three valid ones included (another capitalisation, padding, a prefix, the class name)
+        'output_type': ['dense', 'matrix', None, 3, 'Triplets', 'TRIPLETS', 'COO_matrix', 'coo_Matrix', 'NDARRAY', 'ndArray', ' triplets',
+                        'ndarray ', 'coo', 'triplet', 'csr_matrix', '', b'ndarray', True],
         'max_custom_distance': [-1, '3', None],
         'custom_distance': ['levenshtein', (lambda a, b: 1), 5],
     }
